@@ -174,7 +174,7 @@ func checkC07(cfg *core.Config) int {
 	pl := NewPipeline(cfg, rep, progs, true)
 	defer pl.Close()
 
-	K, k, procs := cfg.Pick(30, 120), cfg.Pick(3, 6), cfg.Pick(3, 8)
+	K, k, procs := cfg.Pick(30, 120), cfg.Pick(12, 40), cfg.Pick(3, 8)
 	targets := append(append([]string{}, allTargets...), "axios")
 	// (c) p fresh processes: the same job run p times; hashes compared across runs
 	hashes := map[string]map[string]map[string]bool{} // prog -> key -> set of hashes
